@@ -7,6 +7,8 @@ CONSTANTS MaxOrd = 3
  Faults = 0
  Fails = 0
  MaxFaultPos = 1
+ QueueDriven = FALSE
+ ClaimCounts = {0}
  InitMode = "empty"
 INIT TInit
 NEXT TNext
